@@ -130,6 +130,10 @@ def _net2_rec():
     net.cell(1).branch(1).comp(0).clamp("v", -61.0 * _j().ones(T), verbose=False)
     net.cell(0).branch(1).comp(0).clamp("v", -66.0 * _j().ones(T), verbose=False)
     net.cell(1).branch(0).comp(1).clamp("v", -63.0 * _j().ones(T), verbose=False)
+    # clamps of synaptic states (their targets are global EDGE indices, which overlap with compartment indices as numbers)
+    net.IonotropicSynapse.edge(1).clamp("IonotropicSynapse_s", 0.45 * _j().ones(T), verbose=False)
+    net.TestSynapse.edge(1).clamp("TestSynapse_c", 0.25 * _j().ones(T), verbose=False)
+    net.TestSynapse.edge(0).clamp("TestSynapse_c", 0.65 * _j().ones(T), verbose=False)
     return net
 
 
@@ -263,6 +267,9 @@ OPS["n_delstim_c1b0"] = lambda m: m.cell(1).branch(0).delete_stimuli()
 OPS["n_delstim_c0"] = lambda m: m.cell(0).delete_stimuli()
 OPS["n_delclamp_c1b0"] = lambda m: m.cell(1).branch(0).delete_clamps()
 OPS["n_delclamp_c0"] = lambda m: m.cell(0).delete_clamps()
+OPS["n_delclamp_I"] = lambda m: m.IonotropicSynapse.delete_clamps()
+OPS["n_delclamp_T1"] = lambda m: m.TestSynapse.edge(1).delete_clamps()
+OPS["n_delclamp_T1_named"] = lambda m: m.TestSynapse.edge(1).delete_clamps("TestSynapse_c")
 
 _CELL_COMMON = ["ins_Leak_b0", "ins_Km_all", "ins_CaL_b2", "ins_CaT_b2c0", "set_rad_b2c1", "set_v_b0", "ncomp_b1_2", "ncomp_b2_1",
                 "group_b0", "group_b2c2", "rec_v_b2", "delrec_all", "delrec_b2", "stim_b0c0", "stim_b2", "clamp_v_b1", "delstim_all",
@@ -412,6 +419,7 @@ CONFINED = {
     "n_delrec_c0": ("rec", lambda m: m.cell(0)), "n_delstim_c1b0": ("stim", lambda m: m.cell(1).branch(0)),
     "n_delstim_c0": ("stim", lambda m: m.cell(0)), "n_delclamp_c1b0": ("clamp", lambda m: m.cell(1).branch(0)),
     "n_delclamp_c0": ("clamp", lambda m: m.cell(0)),
+    "n_delclamp_I": ("clamp", lambda m: m.IonotropicSynapse), "n_delclamp_T1": ("clamp", lambda m: m.TestSynapse.edge(1)),
 }
 
 
